@@ -2,7 +2,7 @@
 
 use super::good_lp::{collect_good_lp_duals, solve_with_good_lp};
 use super::{LpSolution, SolverError, find_invalid_variables};
-use crate::math::VariableType;
+use crate::math::{OptimizationType, VariableType};
 use crate::transformers::LinearModel;
 use ::clarabel::solver::SolverStatus;
 use ::good_lp::SolutionWithDual;
@@ -65,7 +65,23 @@ pub fn solve_real_lp_problem_clarabel(lp: &LinearModel) -> Result<LpSolution<f64
                 solution.inner().status,
                 SolverStatus::DualInfeasible | SolverStatus::AlmostDualInfeasible
             ) {
-                return Err(SolverError::Unbounded);
+                // The certificate is an improving ray; the objective is unbounded
+                // only if the feasible set is non-empty. Decide that by solving
+                // the same rows with a zero objective (which cannot be dual
+                // infeasible, so this does not recurse further).
+                let (_, _, _, constraints, variables, domain) = lp.clone().into_parts();
+                let feasibility = LinearModel::new_from_parts(
+                    vec![0.0; variables.len()],
+                    OptimizationType::Min,
+                    0.0,
+                    constraints,
+                    variables,
+                    domain,
+                );
+                return match solve_real_lp_problem_clarabel(&feasibility) {
+                    Err(SolverError::Infeasible) => Err(SolverError::Infeasible),
+                    _ => Err(SolverError::Unbounded),
+                };
             }
             Ok(())
         },
